@@ -27,8 +27,8 @@ REQUIRED = ["strict_fail_loose_pass", "policy_ok", "policy_ok_consensus_ok", "bo
 
 def runs(tier, seed):
     if tier == "thorough":
-        return [Run("flags", cases=100000, params={"pairs": 64}, timeout=7200)]
-    return [Run("flags", cases=4000, params={"pairs": 64}, timeout=3000)]
+        return [Run("flags", cases=40000, params={"pairs": 64}, timeout=14400)]  # 10x quick; ~10 min on 16 idle cores
+    return [Run("flags", cases=4000, params={"pairs": 64}, timeout=3600)]
 
 
 def _valid(f, u):
